@@ -32,6 +32,10 @@ def main():
     def make_input(sec, micro, kind, off):
         if kind == 'struct_time':
             return S._struct_time(sec)
+        if kind == 'st_gmtoff':      # 11-field struct_time carrying an explicit tm_gmtoff
+            return S._struct_time_gmtoff(sec, off * 60)
+        if kind == 'st_local':       # what time.localtime() returns in the active zone
+            return time.localtime(sec)
         return S._dt(sec, micro, kind, off)
 
     class Fail(Exception):
@@ -43,6 +47,11 @@ def main():
             return pair_oracle(case)
         sec, micro, kind, off = case['sec'], case['micro'], case['kind'], case['off']
         v = make_input(sec, micro, kind, off)
+        if kind == 'st_local':
+            # the fields are local wall time; 'read as UTC' they denote another instant
+            sec = canon.epoch_seconds(v)
+            if not 0 <= sec <= 2**32 - 1:
+                return None
         want = sec.to_bytes(8, 'big')
         try:
             got = encode.timestamp(v)
@@ -115,6 +124,8 @@ def main():
 
     def record(case):
         res['evaluations'] += 1
+        if res['evaluations'] % 64 == 0:
+            runner.set_logging(res['evaluations'] % 128 == 0)
         off_now = local_offset(case['sec']) if 'sec' in case else -18000
         if off_now != 0:
             res['nontrivial'] += 1
@@ -152,14 +163,15 @@ def main():
             transitions.append(hi)
             prev = cur
         t += step
-    kinds = ['naive', 'utc', 'offset', 'struct_time', 'nulltz', 'ruletz']
+    kinds = ['naive', 'utc', 'offset', 'struct_time', 'nulltz', 'ruletz', 'st_gmtoff',
+             'st_local']
     for i, tr in enumerate(transitions):
         for d in (-3601, -3600, -1, 0, 1, 3599, 3600, 3601):
             s = tr + d
             if 0 <= s <= 2**32 - 1:
                 res['dst_cases'] += 1
                 record({'tz': boot_tz, 'sec': s, 'micro': (i * 7919) % 1000000,
-                        'kind': kinds[(i + d) % 6], 'off': 330})
+                        'kind': kinds[(i + d) % 8], 'off': 330})
     # ---- 1b. fold pairs: every year 1971..2105, both orders
     for year in range(1971, 2106):
         for order in (0, 1):
@@ -172,7 +184,7 @@ def main():
         sec = int.from_bytes(raw[:5], 'big') % 2**32
         case = {'tz': boot_tz, 'sec': sec,
                 'micro': int.from_bytes(raw[5:], 'big') % 1000000,
-                'kind': kinds[i % 6], 'off': (i * 37) % 2879 - 1439}
+                'kind': kinds[i % 7], 'off': (i * 37) % 2879 - 1439}
         r = record(case)
         if r is not None:
             h.update(r[0])
